@@ -27,6 +27,12 @@ class Err(Exception):
     def __bool__(self):
         return False    # exceptions are user objects too: nothing may decide by their truthiness
 
+    def __eq__(self, other):
+        return isinstance(other, BaseException)     # exceptions that compare equal to each other (identity is what counts)
+
+    def __hash__(self):
+        return 19
+
 
 class ThrottleDriver:
     def __init__(self):
